@@ -497,11 +497,11 @@ package diam
 //@   property C07
 //@   requires w != nil && 0 <= written(w) && written(w) < 1<<44
 //@   requires [C07] buffer_still_owned: !inpool(b)
-//@   modifies written(w), wlog(w)[written(w):written(w)+len(b)]
+//@   modifies written(w), wstream(w), wlog(w)[written(w):written(w)+len(b)]
 //@   ensures [C07] no_gap_no_repeat: 0 <= n && n <= len(b) && written(w) == old(written(w)) + n
 //@   ensures [C07] complete_on_success: err == nil ==> n == len(b)
 //@   loop 0
-//@     modifies written(w), wlog(w)[written(w):written(w)+len(b)]
+//@     modifies written(w), wstream(w), wlog(w)[written(w):written(w)+len(b)]
 //@     invariant [C07] resumes_at_first_unsent: 0 <= n && n <= len(b0) && isslice(b, b0, n) && written(w) == old(written(w)) + n
 //@   end
 //@ end
